@@ -360,7 +360,7 @@ class LemmaDef:
         self.order = 0
 
 
-FUNC_CLAUSES = ('requires', 'ensures', 'assigns', 'nopanic', 'maypanic', 'devirt', 'inline', 'trusted', 'pure', 'decreases',
+FUNC_CLAUSES = ('requires', 'ensures', 'assigns', 'nopanic', 'maypanic', 'devirt', 'globals', 'inline', 'trusted', 'pure', 'decreases',
                 'loop', 'invariant', 'use', 'tags', 'modifies', 'opaque', 'induction', 'trigger', 'terminates', 'callsite', 'recgroup')
 
 
@@ -379,7 +379,8 @@ class ContractSet:
         self.specs = {}      # name -> SpecDef
         self.funcs = {}      # full go/ssa function name -> FuncContract
         self.ifaces = {}
-        self.functypes = {}     # (iface full type string, method) -> FuncContract
+        self.functypes = {}
+        self.globalinvs = []     # (pkg, Clause)     # (iface full type string, method) -> FuncContract
         self.lemmas = {}     # name -> LemmaDef
         self.impl = {}       # iface type string -> concrete receiver type string (assumption A1)
         self.assumptions = []  # textual list of trusted / axiom / assume-impl items
@@ -431,6 +432,11 @@ class ContractSet:
             self.parse_func(prog, pkg, word, g)
         elif word in ('lemma', 'axiom'):
             self.parse_lemma(prog, pkg, word, g)
+        elif word == 'globalinv':
+            # globalinv <expr>: a fact about package-level variables that the package initialiser establishes (verified on
+            # `init`) and that holds ever after because no other function stores to them (checked by a scan)
+            text = ' '.join(g)[len(word):].strip()
+            self.globalinvs.append((pkg, Clause([], ('inpkg', pkg, parse_expr(text)), text)))
         elif word == 'assume-impl':
             # assume-impl io.IScanner = *io.StringScanner
             m = re.match(r'assume-impl\s+(\S+)\s*=\s*(\S+)', ' '.join(g))
@@ -545,6 +551,9 @@ class ContractSet:
                 if getattr(target, 'devirt', None) is None:
                     target.devirt = {}
                 target.devirt[resolve_type(self._prog, self._pkg, Parser(m2.group(1)).parse_type())] = resolve_type(self._prog, self._pkg, Parser(m2.group(2)).parse_type())
+            elif kw == 'globals':
+                # the function relies on the package-level invariants (`globalinv`): they are assumed at its entry
+                target.uses_globals = True
             elif kw == 'maypanic':
                 # the function may panic instead of returning (its callers recover): run-time panics inside it end
                 # the path instead of being proof obligations
